@@ -9,6 +9,10 @@
 //!  7    Bitstring::random_with_probability           [7, n, p_n, p_d]
 //!  8    Plushy gene generator over n instructions    [8, n, close_kind, c_n, c_d]   child = [0] close, [i+1] instruction i
 //!  9    WithRate on Vec<i64> (`!` = bitwise not)     [9, rate_num, rate_den, genes]
+//!  11   long genomes, judged through two positions i < j < len   [11, op, len, i, j, rate_num, rate_den]
+//!         op 0/1 WithRate on Vec<bool> / Bitstring (child = [flipped at i, flipped at j]); op 2 UniformXo on [Bitstring; 2],
+//!         op 3 UniformXo on [Vec<bool>; 2], op 4 UniformXo on (Bitstring, Bitstring) (complementary parents; child = [taken from
+//!         the second parent at i, at j]); op 5 Bitstring::random_with_probability (child = [bit i, bit j]); op 6 WithOneOverLength
 //!  10   Umad on Plushy (genes = PushInt tags; new genes from a gene generator with close markers)
 use std::collections::BTreeMap;
 
@@ -205,6 +209,51 @@ fn run(input: &Tree) -> Option<Tree> {
                 }
             }
         }
+        11 => {
+            if p.len() != 7 {
+                return None;
+            }
+            let op = p.get(1)?.int()?;
+            let (len, i, j) = (p.get(2)?.usize()?, p.get(3)?.usize()?, p.get(4)?.usize()?);
+            if !(i < j && j < len && len <= 4096) {
+                return None;
+            }
+            let r = ratio(p.get(5)?, p.get(6)?)?;
+            // a fixed, non-trivial parent: bit k is set iff k % 3 == 0
+            let parent: Vec<bool> = (0..len).map(|k| k % 3 == 0).collect();
+            let other: Vec<bool> = parent.iter().map(|b| !b).collect();
+            let pick = |c: &[bool], base: &[bool]| vec![i64::from(c[i] != base[i]), i64::from(c[j] != base[j])];
+            match op {
+                0 => {
+                    let m = WithRate::new(r as f32);
+                    hist(n, seed, |rng| pick(&m.mutate(parent.clone(), rng).unwrap(), &parent))
+                }
+                1 => {
+                    let m = WithRate::new(r as f32);
+                    let b = Bitstring { bits: parent.clone() };
+                    hist(n, seed, |rng| pick(&m.mutate(b.clone(), rng).unwrap().bits, &parent))
+                }
+                2 => {
+                    let (x, y) = (Bitstring { bits: parent.clone() }, Bitstring { bits: other.clone() });
+                    hist(n, seed, |rng| pick(&UniformXo.recombine([x.clone(), y.clone()], rng).unwrap().bits, &parent))
+                }
+                3 => hist(n, seed, |rng| pick(&UniformXo.recombine([parent.clone(), other.clone()], rng).unwrap(), &parent)),
+                4 => {
+                    let (x, y) = (Bitstring { bits: parent.clone() }, Bitstring { bits: other.clone() });
+                    hist(n, seed, |rng| pick(&UniformXo.recombine((x.clone(), y.clone()), rng).unwrap().bits, &parent))
+                }
+                5 => {
+                    let zero = vec![false; len];
+                    hist(n, seed, |rng| pick(&Bitstring::random_with_probability(len, r, rng).bits, &zero))
+                }
+                6 => {
+                    let m = WithOneOverLength;
+                    let b = Bitstring { bits: parent.clone() };
+                    hist(n, seed, |rng| pick(&m.mutate(b.clone(), rng).unwrap().bits, &parent))
+                }
+                _ => return None,
+            }
+        }
         6 => {
             if p.len() != 3 {
                 return None;
@@ -337,6 +386,23 @@ fn gen_c12(tier: &str, rng: &mut Sm) -> Gen {
         g.inputs.push(case(rng, n, tl![A(7), A(5), a(pn), a(pd)]));
     }
     g.inputs.push(case(rng, 200, tl![A(7), A(0), A(1), A(2)]));
+    // long genomes (far too many children to tabulate): one position pair per case - neighbours, a word apart
+    // (63, 64, 65, 128), far apart - judged against the pair marginals (independence) of the model
+    let pairs: &[(usize, usize, usize)] = &[(65, 0, 64), (130, 1, 65), (130, 0, 128), (200, 63, 127), (100, 98, 99), (257, 0, 256), (96, 31, 63), (96, 32, 64)];
+    for (t, (len, i, j)) in pairs.iter().enumerate() {
+        for op in 0..=6i64 {
+            if tier != "thorough" && (t + op as usize) % 4 != 0 {
+                continue;
+            }
+            let (rn, rd) = match op {
+                0 | 1 => [(1i64, 4i64), (1, 2), (7, 8)][t % 3],
+                5 => [(1, 8), (1, 2), (3, 4)][t % 3],
+                6 => (1, *len as i64),
+                _ => (1, 2),
+            };
+            g.inputs.push(case(rng, n, tl![A(11), a(op), au(*len), au(*i), au(*j), a(rn), a(rd)]));
+        }
+    }
     for k in [1i64, 2, 3, 5] {
         g.inputs.push(case(rng, n, tl![A(8), a(k), A(0), A(0), A(1)]));
         g.inputs.push(case(rng, n, tl![A(8), a(k), A(1), A(1), A(4)]));
@@ -366,6 +432,6 @@ fn gen_c12(tier: &str, rng: &mut Sm) -> Gen {
             g.inputs.push(case(rng, n, tl![A(8), a(k), A(1), A(1), A(1)]));
         }
     }
-    g.meta("generator", "full child distributions: bit-flip rates {1/16, 1/4, 1/2, 7/8} and 1/len for len 1..8; UMAD (a,d) in {(1/8,1/8), (1/4,1/5) [size-neutral], (1/2,1/4), (1,0), (0,1), (1/2,1/3) [size-neutral]} on 0..3 tagged genes with a 2-gene alphabet; uniform crossover len 1..6; random bitstrings p in {0, 1/8, 1/2, 7/8, 1}; gene generators for 1,2,3,5 instructions with the default and explicit close probabilities");
+    g.meta("generator", "full child distributions: bit-flip rates {1/16, 1/4, 1/2, 7/8} and 1/len for len 1..8; UMAD (a,d) in {(1/8,1/8), (1/4,1/5) [size-neutral], (1/2,1/4), (1,0), (0,1), (1/2,1/3) [size-neutral]} on 0..3 tagged genes with a 2-gene alphabet; uniform crossover len 1..6; random bitstrings p in {0, 1/8, 1/2, 7/8, 1}; gene generators for 1,2,3,5 instructions with the default and explicit close probabilities; genomes of 65..257 genes judged through pairs of positions (neighbours, 32/63/64/65/128/256 apart) for bit-flip, 1/length flip, uniform crossover in all argument forms and random bitstrings");
     g
 }
